@@ -132,6 +132,40 @@ func seqProfile0(prop, tier string) *SeqProfile {
 			},
 			Rule: "C11: at every close every segment is projected by the reference codec (index file = index derived from the log file; timestamps when times never decrease); then the directory is copied and reopened rw and ro with all / each single / seeded subsets of index files removed and the answers to a fixed query sweep (Stat first) are compared with the unmodified copy.",
 		}
+	case "C20":
+		g.WBackup = 22
+		g.ROPct = 0
+		g.WPublish = 60
+		q := []string{"n", "a", "b", "g"}
+		return &SeqProfile{Prop: prop, Gen: g, NRandom: tierN(tier, 300, 4000), Module: "TraceAbs.tla", Cfg: "TraceAbs.cfg",
+			Obs: Obs{KeyQ: q},
+			Hist: func(id int, seed int64) *History {
+				gg := g
+				if id%2 == 0 {
+					gg.TimeMode = "mono"
+				}
+				return genHistory(id, seed, gg)
+			},
+			Rule: "C20: every Log.Backup / klevdb.Backup call (fresh target, or repeated into the same target after publish-only steps) judged: no error, source answers unchanged, target passes Check, opens, scans to the abstract live sequence with the same NextOffset and answers the query sweep like the source.",
+		}
+	case "C19":
+		return &SeqProfile{Prop: prop, NRandom: 0, Module: "TraceHandles.tla", Cfg: "TraceHandles.cfg",
+			Design: []DesignRun{{Module: "Handles.tla", Cfg: tierS(tier, "handles_q.cfg", "handles_t.cfg"), Workers: 4, Timeout: 5 * time.Minute,
+				Note: "Handles.tla bounded exhaustive: OneWriter, WriterExclusive, Released"}},
+			Extra: func(r *SeqRun) {
+				hs, n, err := handleHistsFromSpec(tierS(tier, "handlesgen_q.cfg", "handlesgen_t.cfg"), r.Scratch, 10*time.Minute)
+				if err != nil {
+					r.infra("handles generator: %v", err)
+					return
+				}
+				r.GenStates, r.NGen = n, len(hs)
+				for i := 0; i < tierN(tier, 300, 5000); i++ {
+					hs = append(hs, genHandleHist(1000000+i, r.Seed, 14))
+				}
+				r.execHandleHists(hs)
+			},
+			Rule: "C19: every Open result of up to three handles (both modes, CreateDirs on/off, Check on/off with a damaged head index, missing directory) judged against Handles.tla; Publish/Delete on read-only handles; read-only answers compared with the writer's last answers on the same files; SHA-256 of all log files before/after each read-only session.",
+		}
 	case "C15":
 		g.WTrim, g.WCompact, g.WDelete, g.WDeleteMulti, g.WPublish = 22, 0, 8, 3, 45
 		g.TrimKinds = []string{"offset", "count", "size", "age"}
@@ -162,6 +196,9 @@ func seqProfile0(prop, tier string) *SeqProfile {
 				gg := g
 				if id%4 == 0 {
 					gg.KeyPool = []string{"n", "a"}
+				}
+				if id%3 == 0 {
+					gg.TimeMode = "spacedany" // times in any order: the compaction scans stop at the first too-new message
 				}
 				return genHistory(id, seed, gg)
 			},
